@@ -1,6 +1,6 @@
 //@ tu: libxcm/ctl/ctl.c
 //@ enforce: accept_client
-//@ props: C14
+//@ props: C14 C05
 //@ expect: postcondition>=2 canary=3
 #include "_unit.h"
 void harness(void)
